@@ -871,7 +871,7 @@ func (in *c14fhIn) clientKind(windows bool) string {
 }
 
 // DIRECT ORACLES on the framing, independent of the model
-func (c *ctx) c14oracleFraming(in *c14fhIn, kind string, toClient [][]byte, how string) {
+func (c *ctx) c14oracleFraming(in *c14fhIn, kind string, toServer, toClient [][]byte, how string) {
 	windows, ok := in.honestClient()
 	if !ok {
 		return
@@ -886,6 +886,13 @@ func (c *ctx) c14oracleFraming(in *c14fhIn, kind string, toClient [][]byte, how 
 				"(it announced newline "+strconv.Quote(want)+")", detail)
 		}
 	}
+	// the server reads the ACT before it knows anything about the client: with the Windows reader
+	// exactly when it runs on Windows
+	for _, l := range toServer {
+		if t, _, _ := c14decodeLine(l); t == "ACT" && bytes.HasSuffix(l, []byte("!\n")) != in.win {
+			c.violate("relay-server-terminator:ACT:"+ck, "the ACT the relay sent to the server does not end with the terminator that server reads by", detail+" to-server="+hxs(toServer))
+		}
+	}
 	// the server is honest too: it frames its CFG with the newline of the ACT it received
 	if c14val(in.act.confirm, false) && in.cfg != nil && in.cfgSupplied() && in.cfgWin == windows &&
 		(in.cfg.escape == nil || *in.cfg.escape != "o") {
@@ -896,7 +903,7 @@ func (c *ctx) c14oracleFraming(in *c14fhIn, kind string, toClient [][]byte, how 
 	}
 }
 
-func (c *ctx) c14runFramed(in *c14fhIn) (string, string, [][]byte) {
+func (c *ctx) c14runFramed(in *c14fhIn) (string, string, [][]byte, [][]byte) {
 	var fc, fs [][]byte
 	if in.act != nil {
 		fc = [][]byte{c14line("ACT", in.act.json(nil, false, nil), c14nl(in.actWin))}
@@ -920,7 +927,7 @@ func (c *ctx) c14runFramed(in *c14fhIn) (string, string, [][]byte) {
 	if cw {
 		b = "1"
 	}
-	return kind, canon + ":S=" + c14terms(ts) + ":C=" + c14terms(tc) + ":w" + b, tc
+	return kind, canon + ":S=" + c14terms(ts) + ":C=" + c14terms(tc) + ":w" + b, ts, tc
 }
 
 func (c *ctx) c14framedHandshakes() {
@@ -998,15 +1005,15 @@ func (c *ctx) c14framedHandshakes() {
 	_ = f
 	type res struct {
 		kind, canon string
-		tc          [][]byte
+		ts, tc      [][]byte
 	}
 	out := make([]res, len(ins))
 	parallelDo(len(ins), 16, func(i int) {
-		k, cn, tc := c.c14runFramed(ins[i])
-		out[i] = res{k, cn, tc}
+		k, cn, ts, tc := c.c14runFramed(ins[i])
+		out[i] = res{k, cn, ts, tc}
 	})
 	for i, in := range ins {
-		c.c14oracleFraming(in, out[i].kind, out[i].tc, "export-handshake2")
+		c.c14oracleFraming(in, out[i].kind, out[i].ts, out[i].tc, "export-handshake2")
 		c.count("hs2:" + out[i].kind)
 		if in.act == nil && in.win == false && in.cliWin0 == false {
 			c.count("hs2:undecodable-act-fresh-relay-unix-terminator") // C14_client_terminator_any_act_refuted
@@ -1222,7 +1229,7 @@ func (c *ctx) c14pipeHandshakes() {
 		if in.act != nil {
 			cliWin := in.act.newline != nil && *in.act.newline == "!\n"
 			c.c14oracleFraming(&c14fhIn{mode: 0, width: -1, act: in.act, cfg: in.cfg, cfgBad: in.badCfg != nil,
-				cfgWin: cliWin && !c14val(in.act.tunnel, false), desc: "NewTrzszRelay over pipes"}, out[i].kind, out[i].tc, "pipe-handshake")
+				cfgWin: cliWin && !c14val(in.act.tunnel, false), desc: "NewTrzszRelay over pipes"}, out[i].kind, nil, out[i].tc, "pipe-handshake")
 		}
 		c.count("pipe-hs:" + strings.SplitN(out[i].kind, ":", 2)[0])
 		c.emit(true, "handshake", out[i].canon, in.args()...)
